@@ -26,6 +26,7 @@ pub const MENU: &[(&str, bool)] = &[
     ("(+ 1 2)", false),
     ("(define (p) (display \"in-p\") (newline))\n(p)\n(p)", false),
     ("(display (let ((a 1))\n           (list a 2)))", false),
+    ("(display \"two\nlines \\\" and\n a third\")", false),
     ("(car '())", true),
     ("(undefined-procedure 1)", true),
     ("(display\n  (vector-ref (vector 1) 5))", true),
